@@ -277,7 +277,14 @@ fn inst(op: spirv::Op, rt: Option<u32>, rid: Option<u32>, ops: Vec<Operand>) -> 
 
 fn base_module(cs: &mut Cs, rich: bool) -> Base {
     let mut m = dr::Module::new();
-    let mut h = dr::ModuleHeader::new(ID_P + 2);
+    // the statement puts no condition on the header's id bound: accurate, or stale / zero as
+    // Builder::module_ref() snapshots and hand-made modules have it
+    let bound = match cs.below(4) {
+        0 => [0u32, 1, 2, 7][cs.below(4)],
+        1 => cs.below(60) as u32,
+        _ => ID_P + 2,
+    };
+    let mut h = dr::ModuleHeader::new(bound);
     h.set_version(1, cs.below(7) as u8);
     m.header = Some(h);
     let capg = golden().enums.get("Capability").unwrap();
@@ -948,7 +955,7 @@ pub fn finish(ctx: &Ctx) -> i32 {
     crate::engine::finish(
         ctx,
         Finish {
-            rule: "modules generated inside the stated subset: header, 1-3 capabilities, one memory model; declared-before-use void/bool/int/float, vector, matrix, pointer, array (length = earlier 32-bit constant), struct and function types; 32-bit OpConstant, bool/null constants and OpConstantComposite; 1-3 functions of 1-3 blocks with phis (at the start of the block or anywhere before the terminator; sources unknown to the lifter or results defined later in the same function), result-producing instructions drawn from the pinned list of opcodes the lifter handles (golden/lift_subset.json, every one of them x4 in the sweep) and non-switch terminators. Oracle: convert is Ok; version word, capabilities in order and memory model preserved; the Debug rendering of types / constants / ops / function blocks is read by a small Debug-syntax reader: one entry per declaration / per result-producing non-phi block instruction, in order, entry head = the opcode's name, value atoms positionally equal to the DR operands (an id may appear as the raw word or as Token(k) with k the index of the referenced type / constant declaration); control mask, result type token, block count, each block's terminator and phi result types as block arguments. non-trivial = module with >= 4 types, a composite, a function with >= 2 blocks, a phi and >= 4 lifted operations (sweep: every case); distinct = hash of the rendered module.",
+            rule: "modules generated inside the stated subset: header (id bound accurate, stale or zero), 1-3 capabilities, one memory model; declared-before-use void/bool/int/float, vector, matrix, pointer, array (length = earlier 32-bit constant), struct and function types; 32-bit OpConstant, bool/null constants and OpConstantComposite; 1-3 functions of 1-3 blocks with phis (at the start of the block or anywhere before the terminator; sources unknown to the lifter or results defined later in the same function), result-producing instructions drawn from the pinned list of opcodes the lifter handles (golden/lift_subset.json, every one of them x4 in the sweep) and non-switch terminators. Oracle: convert is Ok; version word, capabilities in order and memory model preserved; the Debug rendering of types / constants / ops / function blocks is read by a small Debug-syntax reader: one entry per declaration / per result-producing non-phi block instruction, in order, entry head = the opcode's name, value atoms positionally equal to the DR operands (an id may appear as the raw word or as Token(k) with k the index of the referenced type / constant declaration); control mask, result type token, block count, each block's terminator and phi result types as block arguments. non-trivial = module with >= 4 types, a composite, a function with >= 2 blocks, a phi and >= 4 lifted operations (sweep: every case); distinct = hash of the rendered module.",
             assumptions: vec!["the structured representation is documented as under development: the supported subset is pinned (opcodes and id-operand roles) from the pinned tree; an opcode leaving the subset is a failure of the sweep".into()],
             trusted_base: vec!["Debug-syntax reader".into(), "golden/lift_subset.json".into()],
         },
